@@ -1,0 +1,17 @@
+//go:build verif
+
+package client
+
+// Exported aliases of unexported constructors, for the verification harness only.
+
+func VerifNewSelector(mode SelectMode, servers map[string]string) Selector {
+	return newSelector(mode, servers)
+}
+
+func VerifNewGeoSelector(servers map[string]string, latitude, longitude float64) Selector {
+	return newGeoSelector(servers, latitude, longitude)
+}
+
+func VerifFilterByStateAndGroup(group string, servers map[string]string) {
+	filterByStateAndGroup(group, servers)
+}
